@@ -98,6 +98,7 @@ type world struct {
 	ctxs      map[int]context.Context
 	cancels   map[int]context.CancelFunc
 	fcStart   bool
+	gcStart   bool
 	maxReq    int
 	doWG      sync.WaitGroup
 	doDone    map[int]bool
@@ -211,6 +212,24 @@ func (w *world) ack(i int) {
 	w.r.emit(tr.M{"ev": "AckReturned", "i": i})
 }
 
+// gracefulClose starts Engine.Close: it refuses new calls and waits for the pending ones.
+func (w *world) gracefulClose() {
+	if w.gcStart || w.fcStart {
+		return
+	}
+	w.gcStart = true
+	w.r.emit(tr.M{"ev": "Close"})
+	run := func() {
+		w.e.Close()
+		w.r.emit(tr.M{"ev": "CloseReturned"})
+	}
+	if w.s != nil {
+		w.s.Go("gc", run)
+	} else {
+		go run()
+	}
+}
+
 func (w *world) forceClose(done chan struct{}) {
 	if w.fcStart {
 		return
@@ -293,7 +312,9 @@ func replay(r *rec, trace int, c tr.M, maxRetries int) {
 			s.ReleaseIfAt(rd(j), verifhook.RPCAfterCAS)
 		case "FC":
 			w.forceClose(nil)
-		case "FCRet":
+		case "GC":
+			w.gracefulClose()
+		case "FCRet", "GCRet":
 		default:
 			panic("unknown step " + tr.Str(a["a"]))
 		}
@@ -332,6 +353,16 @@ func replay(r *rec, trace int, c tr.M, maxRetries int) {
 		}
 	}
 	drain()
+	if b, ok := c["runout"].(bool); ok && b {
+		// every other behaviour: let the retry timers of whatever is still pending run out first
+		// (an unacknowledged request must hit the retry limit, never exceed it)
+		for k := 0; k < maxRetries+2; k++ {
+			r.emit(tr.M{"ev": "Tick"})
+			w.clk.Travel(retryInterval)
+			s.Settle()
+			drain()
+		}
+	}
 	w.forceClose(nil)
 	s.Settle()
 	drain()
@@ -389,8 +420,11 @@ func free(r *rec, trace int, rng *rand.Rand, maxRetries int) {
 			r.emit(tr.M{"ev": "Cancel", "i": i})
 			w.cancels[i]()
 		case 7:
-			if rng.Intn(3) == 0 {
+			switch rng.Intn(4) {
+			case 0:
 				w.forceClose(fcDone)
+			case 1:
+				w.gracefulClose()
 			}
 		case 8:
 			time.Sleep(time.Duration(rng.Intn(200)) * time.Microsecond)
